@@ -159,7 +159,7 @@ func doneFields(c *Ctx, m *multiModel) map[string]bool {
 				continue
 			}
 			for _, r := range m.release {
-				if bodyHas(r, closeOfField(c.P, T, fl.Name())) {
+				if bodyHas(r, liftMay(c, closeOfField(c.P, T, fl.Name()))) {
 					out[T+"."+fl.Name()] = true
 				}
 			}
@@ -177,12 +177,27 @@ type cbInvocation struct {
 }
 
 func cbInvocations(c *Ctx, fn *ssa.Function, T, field string) []cbInvocation {
+	return cbInvocationsD(c, fn, T, field, 0)
+}
+
+func cbInvocationsD(c *Ctx, fn *ssa.Function, T, field string, depth int) []cbInvocation {
 	p := c.P
 	var out []cbInvocation
 	for _, cl := range eng.Calls(fn) {
 		call, ok := cl.(*ssa.Call)
 		if !ok || call.Call.IsInvoke() {
 			continue
+		}
+		// a helper of the release code that runs the callback itself (closeSocketLocked()): the call stands for it
+		if h := call.Call.StaticCallee(); h != nil && depth < 2 && p.InRepo(h) && len(h.Blocks) > 0 && h != fn && eng.PkgPathOf(h) == eng.PkgPathOf(fn) {
+			if inner := cbInvocationsD(c, h, T, field, depth+1); len(inner) > 0 {
+				cleared := true
+				for _, iv := range inner {
+					cleared = cleared && iv.cleared
+				}
+				out = append(out, cbInvocation{call, cleared})
+				continue
+			}
 		}
 		if call.Call.StaticCallee() == nil {
 			if _, isB := call.Call.Value.(*ssa.Builtin); isB {
@@ -250,7 +265,7 @@ func ruleLastClose(c *Ctx, m *multiModel) {
 			c.Check("LASTCLOSE", m.T+":zero-test", p.Pos(r.Pos()), false, "the release closure has no count == 0 test")
 			continue
 		}
-		closeSock := methodCallOnField(p, "Close", m.sockT, m.sockField)
+		closeSock := liftMust(c, methodCallOnField(p, "Close", m.sockT, m.sockField), nil)
 		for _, e := range sortedEdges(zero) {
 			ok, bad := eng.MustPass(edgePoint(e), closeSock)
 			c.Check("LASTCLOSE", m.T+":socket-closed-at-zero", blockPos(p, e.To), ok, fmt.Sprintf("on the count == 0 edge the closure can return at %s without closing the shared socket", p.IPos(bad)))
@@ -260,7 +275,7 @@ func ruleLastClose(c *Ctx, m *multiModel) {
 			for d := range done {
 				dn = append(dn, d)
 				i := strings.LastIndex(d, ".")
-				if ok, _ := eng.MustPass(edgePoint(e), closeOfField(p, d[:i], d[i+1:])); ok {
+				if ok, _ := eng.MustPass(edgePoint(e), liftMust(c, closeOfField(p, d[:i], d[i+1:]), nil)); ok {
 					sig = true
 				}
 			}
@@ -278,7 +293,7 @@ func ruleLastClose(c *Ctx, m *multiModel) {
 				}
 				return false
 			}
-			okReset, badR := eng.MustPass(edgePoint(e), isReset)
+			okReset, badR := eng.MustPass(edgePoint(e), liftMust(c, isReset, nil))
 			c.Check("LASTCLOSE", m.T+":socket-forgotten-at-zero", blockPos(p, e.To), okReset, fmt.Sprintf("on the count == 0 edge the closure can return at %s with the socket field still set: re-acquisition after full release finds the closed socket and does not bind again", p.IPos(badR)))
 			c.Check("LASTCLOSE", m.T+":reader-signalled-at-zero", blockPos(p, e.To), sig, fmt.Sprintf("on the count == 0 edge no done channel of the reader goroutine is closed on every path (done-channel fields closed somewhere: %v)", dn))
 		}
@@ -596,6 +611,12 @@ func ruleCancelPump(c *Ctx, m *multiModel, rule string) {
 			ce := cancelIn(h)
 			if len(ce) == 0 {
 				continue
+			}
+			// ... or on the socket-closed test (the helper is the whole loop body: `for forwardNext(...) {}`)
+			for _, hb := range h.Blocks {
+				if iff, ok := hb.Instrs[len(hb.Instrs)-1].(*ssa.If); ok && isErrClosedTest(iff.Cond) {
+					ce[eng.Edge{From: hb, To: hb.Succs[0]}] = true
+				}
 			}
 			okH := true
 			for _, r := range eng.Returns(h) {
